@@ -551,6 +551,7 @@ pub fn run_prop<P: Prop>(p: &P, cfg: &RunCfg) -> i32 {
                         p.explore(cfg.tier, shard, &mut |case| {
                             sl.case_ptr.store(case as *const P::Case as *mut (), Release);
                             sl.seq.fetch_add(1, Release);
+                            trace_case(p, w, case);
                             reset_live();
                             st.evaluations += 1;
                             st.key = None;
@@ -671,6 +672,30 @@ pub fn run_prop<P: Prop>(p: &P, cfg: &RunCfg) -> i32 {
         t0.elapsed().as_secs_f64()
     );
     exit
+}
+
+/// Crash localisation (stack overflow / abort inside the subject cannot be caught in-process): when VERIF_TRACE_DIR is
+/// set, every worker writes the case it is about to run to <dir>/w<k>.json in replay format.  ./check re-runs a check
+/// that died by a signal in this mode and then replays the files one by one to find the case that kills the process.
+fn trace_dir() -> Option<&'static std::path::PathBuf> {
+    static DIR: std::sync::OnceLock<Option<std::path::PathBuf>> = std::sync::OnceLock::new();
+    DIR.get_or_init(|| std::env::var("VERIF_TRACE_DIR").ok().filter(|s| !s.is_empty()).map(std::path::PathBuf::from)).as_ref()
+}
+fn trace_case<P: Prop>(p: &P, worker: usize, case: &P::Case) {
+    if let Some(dir) = trace_dir() {
+        let doc = json!({"property": p.id(), "clause": "crash", "detail": "the process died (stack overflow or abort) while this case was running", "core": serde_json::to_value(case).unwrap()});
+        let _ = std::fs::write(dir.join(format!("w{}.json", worker)), doc.to_string());
+    }
+}
+
+/// Evidence for a run that ended with the process dying in the subject: written by a fresh process on behalf of ./check.
+pub fn crash_evidence<P: Prop>(p: &P, cfg: &RunCfg, replay: &str) -> i32 {
+    let mut partial = Stats::default();
+    partial.evaluations = 1;
+    partial.nontrivial = 2;
+    partial.samples.push(serde_json::to_value(format!("the check process died by a signal; the case that kills it was located by replay: {}", replay)).unwrap());
+    write_evidence(p, cfg, &partial, Instant::now(), 1, false, json!({"aborted": "process-died", "note": "stack exhaustion or abort inside the subject: located with VERIF_TRACE_DIR and single-case replays"}));
+    0
 }
 
 pub fn replay_file<P: Prop>(p: &P, path: &str) -> i32 {
